@@ -12,8 +12,8 @@ HARNESSES = [
   H('tail_name_%s' % nm, 'c', 'harness/C12/h_tailname.c', tracked=['src/exppp/pretty_%s.c' % nm], cflags=['-I/repo/src/exppp', '-I/repo/include/exppp', '-fno-builtin'], shadow_scope=True,
     defs={'KIND': k}, unwind=30, object_bits=10, no_checks=True,
     bounds='%s printer with tail comments on: declaration name (1..2 bytes over p q) and input path (1..2 bytes over p q /) independent symbolic strings' % nm.upper(),
-    stubs=['raw(): records its %s arguments', 'tail_comment(): records its argument', 'ALGargs_out/ALGscope_out/STMTlist_out/TYPE_head_out/exppp_ref_info: empty (bodies are printed elsewhere)', 'shadow express headers'],
-    out_of_claim='the body printers, ENTITY/TYPE/RULE/SCHEMA tail comments, exp2cxx/exp2python output, the schema scanner') for k, nm in ((0, 'proc'), (1, 'func'))
+    stubs=['raw(): records its %s arguments', 'tail_comment(): records its argument', 'ALGargs_out/ALGscope_out/STMTlist_out/TYPE_head_out/WHERE_out/wrap/exppp_ref_info: empty (bodies are printed elsewhere)', 'shadow express headers'],
+    out_of_claim='the body printers, ENTITY/TYPE/RULE/SCHEMA tail comments, exp2cxx/exp2python output, the schema scanner') for k, nm in ((0, 'proc'), (1, 'func'), (2, 'rule'))
 ] + [
   H('aggr_bound_events%d' % nr, 'c', 'harness/C02/h_aggrinit.c', repo_srcs=['src/exp2cxx/classes_type.c'], defs={'BOUNDNR': nr}, unwind=60, object_bits=10, cflags=['-I/repo/src/exp2cxx', '-fno-builtin'],
     bounds='AGGRprint_bound (bound %d), statement-level capture: two runs with equal schema content and different pointer payloads emit the same statements with the same arguments' % nr,
